@@ -145,6 +145,24 @@ def solver_slack(scn, ref, times):
                 slope = abs(B * C * max(qmax, q) ** (C - 1.0))
         worst = max(worst, slope)
     extra = min(2e-6 * worst, 0.05)
+    o = scn['options']
+    if o.get('demand_model') == 'PDD':
+        # a pressure-dependent junction between Pmin and Preq: d = D*((p-Pmin)/(Preq-Pmin))**e, so a mass-balance residual of 1e-6 m3/s
+        # moves its pressure by (Preq-Pmin)/(e*D) * 1e-6 * (d/D)**(1/e-1) <= (Preq-Pmin)/(e*D) * 1e-6
+        dmin = None
+        rngs = [(o.get('pmin', 0.0), o.get('preq', 0.07), o.get('pexp', 0.5))]
+        for n in scn['nodes']:
+            if n['type'] != 'J':
+                continue
+            tot = sum(abs(d[0]) for d in n.get('demands', []))
+            if tot > 0:
+                dmin = tot if dmin is None else min(dmin, tot)
+            if n.get('pdd'):
+                p_ = n['pdd']
+                rngs.append((p_.get('pmin', rngs[0][0]), p_.get('preq', rngs[0][1]), p_.get('pexp', rngs[0][2])))
+        if dmin:
+            worst_p = max((b - a) / max(e, 0.1) for a, b, e in rngs)
+            extra += min(3e-6 * worst_p / max(0.2 * dmin, 1e-5), 0.05)
     out = dict(SOLVER_SLACK)
     out['head'] = (SOLVER_SLACK['head'][0] + extra, SOLVER_SLACK['head'][1])
     out['pressure'] = (SOLVER_SLACK['pressure'][0] + extra, SOLVER_SLACK['pressure'][1])
